@@ -224,8 +224,8 @@ theorem flush_inv {sch : Schema} {w : World} (h : WInv sch w) (ids : List Int) :
         rw [hg] at a b
         exact ⟨⟨a.committed, a.txn, a.coherent⟩, b⟩
 
-theorem flushOne_inv {sch : Schema} {w : World} (h : WInv sch w) (o : ObjId) (ids : List Int) :
-    WInv sch (flushOne sch w o ids).1 ∧ (flushOne sch w o ids).1.committed = w.committed := by
+theorem flushOne_inv {sch : Schema} {w : World} (h : WInv sch w) (o : ObjId) (ids : List Int) (da : Bool) :
+    WInv sch (flushOne sch w o ids da).1 ∧ (flushOne sch w o ids da).1.committed = w.committed := by
   unfold flushOne
   split
   · exact ⟨h, rfl⟩
@@ -233,8 +233,10 @@ theorem flushOne_inv {sch : Schema} {w : World} (h : WInv sch w) (o : ObjId) (id
     · exact ⟨h, rfl⟩
     · split
       · exact ⟨h, rfl⟩
-      · obtain ⟨a, b, _, _⟩ := flushObj_inv h o ids
-        exact ⟨a, b⟩
+      · split
+        · exact flush_inv h ids
+        · obtain ⟨a, b, _, _⟩ := flushObj_inv h o ids
+          exact ⟨a, b⟩
 
 theorem rollback_inv {sch : Schema} {w : World} (h : WInv sch w) : WInv sch (rollback w) :=
   ⟨h.committed, h.committed, fun _ => rfl⟩
@@ -317,7 +319,7 @@ theorem stepW_inv {sch : Schema} {w : World} (h : WInv sch w) (op : WOp) : WInv 
     · exact h
   | fetch c pk ids => exact (fetch_inv h c pk ids).1
   | flush ids => exact (flush_inv h ids).1
-  | flushOne o ids => exact (flushOne_inv h o ids).1
+  | flushOne o ids da => exact (flushOne_inv h o ids da).1
   | commit ids => exact commit_inv h ids
   | rollback => exact rollback_inv h
   | ext r => exact ext_inv h r
@@ -330,7 +332,7 @@ theorem stepW_committed {sch : Schema} {w : World} (h : WInv sch w) (op : WOp)
   | sess op => simp only; split <;> rfl
   | fetch c pk ids => exact (fetch_inv h c pk ids).2
   | flush ids => exact (flush_inv h ids).2
-  | flushOne o ids => exact (flushOne_inv h o ids).2
+  | flushOne o ids da => exact (flushOne_inv h o ids da).2
   | commit ids => exact absurd rfl (hc ids)
   | rollback => rfl
   | ext r => exact absurd rfl (he r)
